@@ -249,7 +249,7 @@ def required_labels(tier):
 
 
 def phases(tier, seed):
-    n = 4800 if tier == 'quick' else 24000
+    n = 4800 if tier == 'quick' else 120000
     return [
         Enum('layouts', lambda: layout_cases(tier, seed), exhaustive=True,
              note='all 168 (version, level) block layouts; per layout several contents x fault families; '
